@@ -769,6 +769,8 @@ class Exec:
 
     def for_loop(self, s, rest, env, path, outs, k):
         it = self.ev(s.iter, env, path)
+        if isinstance(it, (dict, set)) or type(it).__name__ in ("dict_values", "dict_keys", "dict_items"):
+            it = list(it)
         # concrete iteration: unroll
         if isinstance(it, (list, tuple)) and not (it and it[0] == "range" and len(it) == 2 and not pyint(it[1])):
             seq = it
@@ -1210,7 +1212,18 @@ class Exec:
     def ev_Subscript(self, e, env, path):
         b = self.ev(e.value, env, path)
         if isinstance(b, dict):
-            return b[self.ev(e.slice, env, path)]
+            key = self.ev(e.slice, env, path)
+            if is_sym(key):
+                # lookup with a symbolic key among concrete keys: ite chain + KeyError obligation
+                items = [(k_, v) for k_, v in b.items() if pyint(k_) or isinstance(k_, (float, bool))]
+                if len(items) != len(b) or not items:
+                    raise Unsupported("dict lookup with a symbolic key among non-numeric keys")
+                self.oblige(f"dict-key-present {ast.unparse(e)} line {e.lineno}", path, Or(*[toI(key) == k_ for k_, _ in items]), "safety")
+                res = items[-1][1]
+                for k_, v in reversed(items[:-1]):
+                    res = ite(toI(key) == k_, v, res)
+                return res
+            return b[key]
         if isinstance(b, (tuple, list, str)):
             if isinstance(e.slice, ast.Slice):
                 lo = self.ev(e.slice.lower, env, path) if e.slice.lower else None
@@ -1321,6 +1334,8 @@ class Exec:
             if isinstance(v, tuple) and v and v[0] == "range":
                 return f(range(v[1]))
             return f(v)
+        if f is set and args and type(args[0]).__name__ in ("dict_values", "dict_keys", "dict_items"):
+            return set(args[0])
         if f is set:
             if args and isinstance(args[0], T):
                 v = args[0]
